@@ -28,7 +28,7 @@ RESULT_FILES = ['exit-code', 'stderr', 'stdout']
 D1_ENDINGS = ['pass', 'fail', 'hard_setup', 'hard_before_assert', 'hard_assert', 'hard_cleanup', 'hard_act',
               'validation', 'syntax', 'skip']
 DISTURB = ['cd_root', 'cd_tmp', 'cd_newdir', 'env_set', 'env_set_act', 'env_unset', 'env_path', 'chmod_files',
-           'chmod_tree', 'deep_tree', 'symlinks', 'tmp_files']
+           'chmod_tree', 'deep_tree', 'symlinks', 'tmp_files', 'cd_deleted']
 OUT_KINDS = ['empty', 'text', 'nonl', 'nonascii', 'large']
 
 
@@ -63,9 +63,10 @@ def cases(tier, seed):
     # D1 deterministic: every ending x keep with a fixed rich disturbance set
     for e in D1_ENDINGS:
         for keep in (False, True):
-            for i, dist in enumerate((DISTURB, [], ['cd_root', 'env_unset', 'chmod_tree'])):
+            for i, dist in enumerate(([x for x in DISTURB if x != 'cd_deleted'], [], ['cd_root', 'env_unset', 'chmod_tree'],
+                                      ['cd_deleted'], ['cd_deleted', 'env_set'], ['env_unset', 'cd_deleted'])):
                 yield {'d': 1, 'ending': e, 'keep': keep, 'disturb': list(dist), 'out': OUT_KINDS[(i + len(e)) % 5],
-                       'rc': (7 * len(e) + i) % 256, 'where': ['setup', 'before-assert', 'cleanup'][i]}
+                       'rc': (7 * len(e) + i) % 256, 'where': ['setup', 'before-assert', 'cleanup'][i % 3]}
     n1 = 1500 if tier == 'quick' else 25000
     for _ in range(n1):
         k = rng.randrange(0, 6)
@@ -261,7 +262,13 @@ def build_d1(case, marker_dir):
         add('cd -rel-act newdir/x')
     if 'cd_root' in d:
         add('cd /')
-    if 'chmod_tree' in d:
+    if 'cd_deleted' in d:
+        # the current directory is removed while it is current; always as the last thing the case does (a process
+        # cannot be started in a removed directory, so anything following it would legitimately be a hard error)
+        L['cleanup'].append('dir -rel-act gone/deeper')
+        L['cleanup'].append('cd -rel-act gone/deeper')
+        L['cleanup'].append('$ rmdir "$PWD"')
+    if 'chmod_tree' in d and 'cd_deleted' not in d:
         add('$ chmod -R a-w @[EXACTLY_ACT]@ @[EXACTLY_TMP]@')
     e = case['ending']
     rc = case['rc']
@@ -288,14 +295,14 @@ def build_d1(case, marker_dir):
     elif e == 'hard_assert':
         asserts.append('contents this-file-does-not-exist : is-empty')
     elif e == 'hard_cleanup':
-        L['cleanup'].append('$ exit 1')
+        L['cleanup'].insert(0, '$ exit 1')
     elif e == 'hard_act':
         L['setup'].append('file -rel-act not-exe.txt = "x"')
         act = '-rel-act not-exe.txt'
     elif e == 'validation':
-        L['cleanup'].append('file x = @[UNDEFINED_SYM]@')
+        L['cleanup'].insert(0, 'file x = @[UNDEFINED_SYM]@')
     elif e == 'syntax':
-        L['cleanup'].append('no-such-instruction')
+        L['cleanup'].insert(0, 'no-such-instruction')
     elif e == 'skip':
         conf = ['status = SKIP']
     lines = []
